@@ -514,6 +514,50 @@ func checkC10(w *World) {
 			w.check(P, "R10.4", "position written to an existing cursor in "+fn.Name(), st.Pos(), fresh, "the value is "+why+" (it must be the running counter advanced by at least one: the counter's current value is the position of the node created last, here the element itself)")
 		})
 	})
+	// the counter never goes back: no subtraction from (and no negative constant added to) a value that flows into a
+	// position argument or into the advanced position a helper returns
+	w.forAllFuncs("store", func(fn *ssa.Function) {
+		var sinks []ssa.Value
+		allInstrs(fn, func(in ssa.Instruction) {
+			switch x := in.(type) {
+			case *ssa.Call:
+				if ci, isCtor := sf.Ctors[staticCallee(x)]; isCtor && ci.PosParam < len(x.Call.Args) {
+					sinks = append(sinks, x.Call.Args[ci.PosParam])
+				}
+			case *ssa.Return:
+				for _, rv := range x.Results {
+					if b, ok := rv.Type().Underlying().(*types.Basic); ok && b.Kind() == types.Int {
+						sinks = append(sinks, rv)
+					}
+				}
+			}
+		})
+		bad := ""
+		for _, sk := range sinks {
+			backSlice(sk, func(v ssa.Value) bool {
+				if _, isCall := v.(*ssa.Call); isCall {
+					return false
+				}
+				if ld, isLd := v.(*ssa.UnOp); isLd && ld.Op == token.MUL {
+					return false // a field: the position of an existing cursor, not the counter
+				}
+				bo, ok := v.(*ssa.BinOp)
+				if !ok {
+					return true
+				}
+				if bo.Op == token.SUB && !(isLenOf(bo.X, nil) && isLenOf(bo.Y, nil)) {
+					bad = "a subtraction at " + w.pos(bo.Pos())
+				}
+				if k, isK := constInt(bo.Y); bo.Op == token.ADD && isK && k < 0 {
+					bad = "a negative constant added at " + w.pos(bo.Pos())
+				}
+				return true
+			})
+		}
+		if len(sinks) > 0 {
+			w.check(P, "R10.4", "the position counter never goes back in "+fn.Name(), fn.Pos(), bad == "", "arithmetic on the way to a position: "+orElse(bad, "only increments"))
+		}
+	})
 	// the counter is threaded: a helper that takes the running position and returns the advanced one must have its
 	// result used (dropping it re-issues the positions the helper handed out)
 	w.forAllFuncs("store", func(fn *ssa.Function) {
@@ -1040,6 +1084,8 @@ func checkC10(w *World) {
 	}
 	w.floor(P, "R10.8", 1)
 	w.checkNamespaceInheritance(P, sf, pullers)
+	// "inherited ones, overridden by prefix": an un-declaration (empty namespace name) overrides too
+	w.include(P, "C09", "R09.10")
 }
 
 // nodeOrCursor: t is the store's cursor interface or a pointer to its cursor struct.
